@@ -219,6 +219,14 @@ def r4(fx):
                     times.append(f'{d} at line {n.lineno}')
             elif isinstance(n, ast.Attribute) and src.dotted(n) in ('time.timezone', 'time.altzone'):
                 times.append(f'{src.dotted(n)} at line {n.lineno}')
+            elif isinstance(n, ast.Compare) and any(isinstance(o, (ast.Is, ast.IsNot)) for o in n.ops):
+                # an identity test against a value object (text, bytes, float, tuple, a large integer): the outcome depends on
+                # which object the caller happened to pass, not on its value
+                for side in [n.left] + list(n.comparators):
+                    val = _value_of(fx, k[0], side)
+                    if isinstance(val, (str, bytes, float, tuple, frozenset)) or (isinstance(val, int) and not isinstance(val, bool) and not -5 <= val <= 256):
+                        bad.append(f'identity test against the value {val!r:.30}: `{ast.unparse(n)[:60]}` at line {n.lineno}')
+                        break
             # iteration over a set
             it = None
             if isinstance(n, ast.For):
@@ -241,6 +249,27 @@ def r4(fx):
         cnt = sum(1 for n in src.walk_local(fi.node, into_nested=False) if (isinstance(n, ast.Call) and (src.call_name(n) or '').startswith('time.'))
                   or (isinstance(n, ast.Attribute) and src.dotted(n) in ('time.timezone',) and not isinstance(src.parent(n), ast.Attribute)))
         fx.info[f'time reads in {fi.name}'] = cnt
+
+
+_NOVALUE = object()
+
+
+def _value_of(fx, mod, e):
+    """The constant an operand of an identity test denotes (a literal, a module constant, an attribute of an imported module of
+    the package), else _NOVALUE."""
+    if isinstance(e, ast.Constant):
+        return e.value
+    try:
+        ns = ev.module_consts(fx.forest, mod)
+        if isinstance(e, ast.Name) and ns.has(e.id):
+            return ns.get(e.id)
+        if isinstance(e, ast.Attribute) and isinstance(e.value, ast.Name) and ns.has(e.value.id):
+            base = ns.get(e.value.id)
+            if isinstance(base, ev.Namespace) and base.has(e.attr):
+                return base.get(e.attr)
+    except Unknown:
+        pass
+    return _NOVALUE
 
 
 def _is_set_expr(e, fi):
@@ -324,6 +353,14 @@ def r6(fx):
             diff.append(('Micro' if micro else 'QR', auto[0], req[0], len(auto[1]), len(req[1])))
     yield ob('requested and automatic path use the same apply_mask with predicates from the same table', not diff, fn, got=diff or 'same predicate, same region',
              want='pattern 2 chosen automatically and pattern 2 requested: masked with the same predicate over the same encoding region')
+
+
+@rule('C15', 'R7', 3, 're-encoding with the automatically chosen mask requested explicitly reproduces the symbol; a requested mask is applied with the patterns of the symbol kind (C06.R10)')
+def r7(fx):
+    from . import p06
+    for o in p06.assembled_symbols(fx):
+        if 'reproduces the symbol' in o.key or 'M4' in o.key or 'version 1-' in o.key:
+            yield o
 
 
 def stateless(fx, prop):
